@@ -91,6 +91,9 @@ func (w *World) lemmaInstance(use *SExpr, env *SpecEnv) *Term {
 		panic("use: expected lemma application, got " + use.String())
 	}
 	lm := w.findLemma(env.pkg, use.Args[0].Name)
+	if lm == nil && strings.HasPrefix(use.Args[0].Name, "contractOf_") {
+		return w.contractOfInstance(strings.TrimPrefix(use.Args[0].Name, "contractOf_"), use, env)
+	}
 	if lm == nil {
 		panic("use: unknown lemma " + use.Args[0].Name)
 	}
@@ -1568,4 +1571,112 @@ func closureWritesHeap(ex *Exec, lit *ast.FuncLit) bool {
 	n := len(ex.heapMayWrite)
 	ex.heapMayWrite = saved
 	return n > 0
+}
+
+// contractOfInstance: the verified contract of a `pureas F` function, exported as a fact about the mathematical
+// function F:  (domain facts of the arguments && requires)  ==>  ensures[result := F(args), $w := F$w(args)],
+// ghosts universally quantified. Sound because the body was verified against that contract for ALL arguments
+// satisfying the hypotheses, and the (deterministic, frame-free) result is F(args) by `pureas`.
+func (w *World) contractOfInstance(fname string, use *SExpr, env *SpecEnv) *Term {
+	var fc *FuncContract
+	var fkey string
+	for _, k := range w.CS.funcKeys() {
+		c := w.CS.Funcs[k]
+		if c.PureAs == fname && !c.Trusted && !strings.Contains(k, "@") {
+			fc, fkey = c, k
+		}
+	}
+	if fc == nil {
+		panic("use contractOf_" + fname + ": no verified function with `pureas " + fname + "`")
+	}
+	fi := w.Funcs[fkey]
+	sf := w.findSpec(fc.Pkg, fname)
+	if fi == nil || sf == nil {
+		panic("use contractOf_" + fname + ": function or spec function missing")
+	}
+	rn, pns := paramNames(fi)
+	var pnames []string
+	if fi.Recv != nil {
+		pnames = append(pnames, rn)
+	}
+	for i, pn := range pns {
+		if _, isFn := fi.Sig.Params().At(i).Type().Underlying().(*types.Signature); !isFn {
+			pnames = append(pnames, pn)
+		}
+	}
+	if len(use.Args)-1 != len(pnames) {
+		panic(fmt.Sprintf("use contractOf_%s: expected %d arguments", fname, len(pnames)))
+	}
+	names := map[string]*Val{}
+	var ts []*Term
+	var dom []*Term
+	exact := fc.Arith == "" || fc.Arith == "exact"
+	for i, pn := range pnames {
+		ps, gt := w.resolveSpecType(sf.Pkg, sf.Params[i].Type)
+		v := w.trSpec(use.Args[i+1], env)
+		t := coerceTo(v, ps)
+		names[pn] = tv(t, gt)
+		ts = append(ts, t)
+		if exact {
+			dom = append(dom, exactDomTerm(t))
+		}
+	}
+	if fi.Recv != nil {
+		names["self"] = names[rn]
+	}
+	rs, rgt := w.resolveSpecType(sf.Pkg, sf.Ret)
+	res := tv(mk(specFuncSMTName(sf), rs, ts...), rgt)
+	names["result"] = res
+	for _, nm := range resultNames(fi.Sig) {
+		names[nm] = res
+	}
+	var gbv []*Term
+	for _, g := range fc.Ghosts {
+		gs, gt := w.resolveSpecType(fc.Pkg, g.Type)
+		bvCounter++
+		c := cnst(fmt.Sprintf("%s$%d", g.Name, bvCounter), gs)
+		gbv = append(gbv, c)
+		names[g.Name] = tv(c, gt)
+	}
+	for _, c := range fc.Ensures {
+		for _, nm := range dollarNames(c.Src) {
+			if _, ok := names[nm]; !ok {
+				names[nm] = tv(mk("W_"+fc.Pkg+"_"+fname+"_"+strings.TrimPrefix(nm, "$"), SReal, ts...), types.Typ[types.Float64])
+			}
+		}
+	}
+	fenv := &SpecEnv{names: names, pkg: fc.Pkg, w: w, heapOf: env.heapOf}
+	fenv.old = fenv
+	var req, ens []*Term
+	req = append(req, dom...)
+	for _, c := range fc.Requires {
+		req = append(req, w.trSpec(c.E, fenv).T)
+	}
+	for _, c := range fc.Ensures {
+		t := w.trSpec(c.E, fenv).T
+		if len(gbv) > 0 && mentionsAny(t, gbv) {
+			t = &Term{Op: "forall", BVars: gbv, S: SBool, Args: []*Term{t}}
+		}
+		ens = append(ens, t)
+	}
+	return tImp(tAnd(req...), tAnd(ens...))
+}
+
+// exactDomTerm: the exact-mode domain assumption (integer, |v| <= 2^20) for every float leaf of t.
+func exactDomTerm(t *Term) *Term {
+	switch t.S.Kind {
+	case KReal:
+		b := realLit(fmt.Sprint(exactBound))
+		return tAnd(mk("is_int", SBool, t), mk("<=", SBool, mk("-", SReal, b), t), mk("<=", SBool, t, b))
+	case KDT:
+		if t.S.IsSlice {
+			return tTrue
+		}
+		var fs []*Term
+		for _, f := range t.S.Fields {
+			fs = append(fs, exactDomTerm(tField(t, f.Name)))
+		}
+		return tAnd(fs...)
+	}
+	return tTrue
 }
